@@ -472,9 +472,9 @@ V("qmeta-degree-benign-get", ["C11", "C01"], QM, "benign", (AN, "               
 V("qmeta-guard-le-zero", ["C11", "C01"], QM, "fire", (AN, "                if qd < 0:\n                    qd = int(", "                if qd <= 0:\n                    qd = int("))
 
 OG = ["OPT-GATE", "RULE-SCOPED-NAMES"]
-V("optgate-diag-filter-removed", ["C10"], OG, "fire", (
+V("optgate-diag-filter-removed", ["C10"], OG + ["GEN-IRBLOCKS"], "fire", (
   "ffcx/ir/integral.py", "        if (\n            TensorPart.from_str(p[\"part\"]) == TensorPart.diagonal\n            and len(blockmap) == 2\n            and blockmap[0] != blockmap[1]\n        ):", "        if False:"))
-V("optgate-diag-filter-unguarded", ["C10"], OG, "fire", (
+V("optgate-diag-filter-unguarded", ["C10"], OG + ["GEN-IRBLOCKS"], "fire", (
   "ffcx/ir/integral.py", "            TensorPart.from_str(p[\"part\"]) == TensorPart.diagonal\n            and len(blockmap) == 2\n            and blockmap[0] != blockmap[1]", "            TensorPart.from_str(p[\"part\"]) == TensorPart.diagonal\n            and blockmap[0] != blockmap[1]"))
 V("optgate-tf-name-unscoped", ["C10", "C19"], OG, "fire", (ET, "                        name=f\"FE_TF{tensor_n}_Q{quadrature_rule.id()}\",", "                        name=f\"FE_TF{tensor_n}\","))
 V("optgate-tf-reuse-by-shape", ["C10"], OG, "fire", (ET, "                    if tensor_factor.values.shape == sub_tbl.shape and np.allclose(\n                        tensor_factor.values, sub_tbl, rtol=rtol, atol=atol\n                    ):", "                    if tensor_factor.values.shape == sub_tbl.shape:"))
